@@ -94,7 +94,7 @@ func c13(r *core.Run) {
 			o.Fail(p.Pos(add.Pos()), "AddWithReplicas does not remove the node's previous virtual nodes")
 		}
 		for _, c := range rm {
-			if !core.IsParam("node")(core.Args(c)[1]) {
+			if !core.ParamAt(add, 1)(core.Args(c)[1]) {
 				o.Fail(p.InstrPos(c), "Remove is not called with the node being added")
 			}
 		}
@@ -143,7 +143,7 @@ func c13(r *core.Run) {
 			}
 			hasParam, hasField := false, false
 			for _, e := range bound.Edges {
-				if core.IsParam("replicas")(e) {
+				if core.ParamAt(add, 2)(e) {
 					hasParam = true
 				} else if core.IsFieldLoad(e, "ConsistentHash.replicas") {
 					hasField = true
@@ -154,7 +154,7 @@ func c13(r *core.Run) {
 			if !hasParam || !hasField {
 				o.Fail(p.InstrPos(in), "replica loop bound is not min(replicas, h.replicas)")
 			}
-			cap := core.Cmp(token.GTR, core.IsParam("replicas"), core.FieldLoad("ConsistentHash.replicas"))
+			cap := core.Cmp(token.GTR, core.ParamAt(add, 2), core.FieldLoad("ConsistentHash.replicas"))
 			if core.EdgeCount(add, cap) == 0 {
 				o.Fail(p.InstrPos(in), "no test replicas > h.replicas")
 			}
@@ -168,10 +168,7 @@ func c13(r *core.Run) {
 			if core.IsFieldLoad(v, "ConsistentHash.replicas") {
 				return "R"
 			}
-			if pa, ok := v.(*ssa.Parameter); ok {
-				return pa.Name()
-			}
-			return ""
+			return core.ParamIndexName(v)
 		}}
 		cs := core.Calls(aww, core.CallMethod("hash.ConsistentHash", "AddWithReplicas"))
 		o.Site(len(cs), core.FuncName(aww))
@@ -180,10 +177,10 @@ func c13(r *core.Run) {
 		}
 		for _, c := range cs {
 			got := a.Norm(core.Args(c)[2])
-			if !got.Equal(core.ParsePoly("idiv(R*weight, 100)")) {
+			if !got.Equal(core.ParsePoly("idiv(R*p2, 100)")) { // p2 = weight
 				o.Fail(p.InstrPos(c), "AddWithWeight passes %s, expected idiv(R*weight, 100)", got)
 			}
-			if !core.IsParam("node")(core.Args(c)[1]) {
+			if !core.ParamAt(aww, 1)(core.Args(c)[1]) {
 				o.Fail(p.InstrPos(c), "AddWithWeight adds a different node")
 			}
 		}
@@ -355,7 +352,7 @@ func c13(r *core.Run) {
 					continue
 				}
 				n++
-				geq := core.Cmp(token.GEQ, keyAt(nthParam(an, 0)), core.IsFreeVar("hash"))
+				geq := core.Cmp(token.GEQ, keyAt(nthParam(an, 0)), core.CapturedLocal(func(v ssa.Value) bool { c, ok := v.(*ssa.Call); return ok && isHashCall(c) }))
 				for _, ret := range core.Returns(an) {
 					if m, pos := geq(core.Result(ret, 0)); !m || !pos {
 						o.Fail(p.InstrPos(ret), "%s: search predicate is not keys[i] >= hash", core.FuncName(f))
@@ -424,7 +421,7 @@ func c13(r *core.Run) {
 		rr := p.Func(hashPkg, "ConsistentHash", "removeRingNode")
 		if o.Need(rr != nil, "ConsistentHash.removeRingNode") {
 			r.Fn(core.FuncName(rr))
-			differs := core.Cmp(token.NEQ, func(v ssa.Value) bool { return core.IsResult(v, 0, core.CallTo("lib/hash.repr", "lib/lang.Repr")) }, core.IsParam("nodeRepr"))
+			differs := core.Cmp(token.NEQ, func(v ssa.Value) bool { return core.IsResult(v, 0, core.CallTo("lib/hash.repr", "lib/lang.Repr")) }, core.ParamAt(rr, 2))
 			isAppend := func(in ssa.Instruction) bool {
 				c, ok := in.(*ssa.Call)
 				if !ok {
